@@ -49,7 +49,7 @@ def vkey(e):
     return "op=%s" % op
 
 
-def describe(rec):
+def describe_obj(rec):
     e, info = rec["e"], rec.get("info") or {}
     d = {"op": e.get("op")}
     if e.get("op") == "reqparam":
@@ -65,7 +65,11 @@ def describe(rec):
         d.update(attrs=json.loads(json.dumps(info.get("attrs")))if info else None, enc=e["enc"], dec_ok=e["dec"]["ok"], a=e["a"], b=e["dec"]["b"], b2=e["dec2"]["b"])
     else:
         d.update(text=bytes.fromhex(info.get("text", "")).decode("utf-8", "backslashreplace")[:300], res=e["res"])
-    return json.dumps(d, ensure_ascii=True)[:1500]
+    return d
+
+
+def describe(rec):
+    return json.dumps(describe_obj(rec), ensure_ascii=True)[:1500]
 
 
 def judge(prop, verdict, recs, label, drift):
@@ -184,7 +188,7 @@ def run(prop, tier):
         k = (x["e"]["op"], (x.get("info") or {}).get("cls"), json.dumps(x["e"].get("res", x["e"].get("enc")), sort_keys=True)[:12])
         if k not in seen and len(samples) < 6:
             seen.add(k)
-            samples.append([json.loads(describe(x))])
+            samples.append([json.loads(json.dumps(describe_obj(x))[:100000])] if len(json.dumps(describe_obj(x))) < 100000 else [{"op": x["e"]["op"], "note": "large input omitted"}])
     cov = {"states": states, "transitions": transitions, "traces_validated_against_impl": nval,
            "samples": samples or [["(no call was logged)"]], "exhaustive": True,
            "evaluations": nval, "distinct_nontrivial": len(summ["classes"]),
